@@ -1,6 +1,6 @@
 """C10: check configuration (PROP) and MANIFEST texts (TEXT)."""
 PROP = {'n_quick': 70,
- 'n_thorough': 1500,
+ 'n_thorough': 2500,
  'audit': 14,
  'audit_maxlen': 1800,
  'release': True,
@@ -9,7 +9,7 @@ PROP = {'n_quick': 70,
          'prefix, swap) plus length-field mutations that replace a byte by a large minimal varint (MAX_VEC_SIZE and its neighbours, 2^31, 2^32, 2^64-1, '
          '10 000/10 001), random bytes/strings, and fixed boundary inputs (allocation probes: a length prefix with nothing behind it in every '
          'position a vector can start; control-block sizes 33+32k around 0/128/129 nodes; 63/64/65/66-byte signatures; depth sequences with 0, 128, '
-         '129, 255; every read_uint size 0..17; all 1-byte and (thorough: all x 11) 2-byte scripts). Every case runs in a debug (overflow checks on) and a '
+         '129, 255; every read_uint size 0..17; all 1-byte and (thorough: all 65 536) 2-byte scripts). Every case runs in a debug (overflow checks on) and a '
          'release binary under a panic hook (location of every panic, also swallowed ones) and a counting global allocator; PSET/text parsing that can '
          'crash the process runs in a forked worker. distinct = distinct case text; non-trivial = not a verbatim repository vector (for builder/locktime: '
          'at least one / two items)',
